@@ -1,8 +1,8 @@
 from vv.registry import PROPS, COMMON_ASSUME, py
 
 PROPS["C19"] = dict(
-    parts=[py("vv.exe_c19", quick=dict(cases=14000, procs=8, budget_s=600),
-              thorough=dict(cases=160000, procs=16, budget_s=3000))],
+    parts=[py("vv.exe_c19", quick=dict(cases=10000, procs=8, budget_s=600),
+              thorough=dict(cases=64000, procs=16, budget_s=3000))],
     rule=("perl scripts run directly on generated uniform-grid tables (3..1000 points, decimal grid i*h, values '%.10g' strings that "
           "are exactly 0 or >= 1e-6 in magnitude, flags i/o/u as edge runs or scattered, comment/blank-line decoration), all options of "
           "each script; oracles are closed-form numpy formulas from the --help texts. "
